@@ -40,7 +40,7 @@ var unitTrusted = []string{"go/ssa", "the seed table of checker/units.go (fields
 
 func init() {
 	register("C05", &propInfo{
-		Explanation: "UNIT: units/kinds dataflow over the transform code (transform.go, matrix.go, metaball.go, squeeze.go, render3d/transform.go; 2D and 3D): directions, normals and ray parameters are not pushed through point/length maps (Transform.Apply on a vector without the image-difference idiom; DistTransform.ApplyDistance on anything but a length); sums, comparisons, distances and stores into seeded fields are dimensionally consistent; all returns of a function agree on their dimension. ABSORB: no transformed bound is computed as x.Max(y.Min(x)). FIRSTITER: the first-corner initialisation of the bounds enumeration tests every loop variable of its nest. SIGNMAP: an ApplyBounds that multiplies its corners by a factor of unknown sign orders the result with Min/Max, and an ApplyDistance that multiplies by such a factor uses its magnitude. FRAME: in every transformed wrapper (methods of structs holding a Transform, closures capturing one) world-frame query values reach the wrapped object only through the inverse transform and forward maps are applied only to object-frame values.",
+		Explanation: "UNIT: units/kinds dataflow over the transform code (transform.go, matrix.go, metaball.go, squeeze.go, render3d/transform.go; 2D and 3D): directions, normals and ray parameters are not pushed through point/length maps (Transform.Apply on a vector without the image-difference idiom; DistTransform.ApplyDistance on anything but a length); sums, comparisons, distances and stores into seeded fields are dimensionally consistent; all returns of a function agree on their dimension. ABSORB: no transformed bound is computed as x.Max(y.Min(x)). FIRSTITER: the first-corner initialisation of the bounds enumeration tests every loop variable of its nest. IDBOUNDS: no ApplyBounds returns its box unchanged while the sibling Apply moves points. INVORDER: the inverse of a composition (an Inverse method on a slice of invertible members) puts every member inverse at the mirrored position. MIRRORSWAP: no s[i] <-> s[len(s)-1-i] swap loop runs over the whole length. SIGNMAP: an ApplyBounds that multiplies its corners by a factor of unknown sign orders the result with Min/Max, and an ApplyDistance that multiplies by such a factor uses its magnitude. FRAME: in every transformed wrapper (methods of structs holding a Transform, closures capturing one) world-frame query values reach the wrapped object only through the inverse transform and forward maps are applied only to object-frame values.",
 		Trusted:     unitTrusted,
 		Assumptions: []string{"model coordinates are lengths; a Transform value obtained from X.Inverse() is the inverse of X"},
 		Fixtures:    []string{"u", "g"},
@@ -56,8 +56,20 @@ func init() {
 			c.floor("FIRSTITER", 2)
 			c.runSignMap("SIGNMAP", append(c.libPkgs()[:3:3], c.fixturePkg("g")))
 			c.floor("SIGNMAP", 0)
+			c.runIdentityBounds("IDBOUNDS", append(c.libPkgs()[:3:3], c.fixturePkg("g")))
+			c.floor("IDBOUNDS", 8)
+			c.runInverseOrder("INVORDER", append(c.libPkgs()[:3:3], c.fixturePkg("g")))
+			c.floor("INVORDER", 2)
+			c.runMirrorSwap("MIRRORSWAP", append(c.libPkgs()[:3:3], c.fixturePkg("g")), c.fileFilter("transform.go", "matrix.go", "squeeze.go"))
+			c.floor("MIRRORSWAP", 0)
 		},
 		SelfTest: []Mutation{
+			{Name: "pinch reports the box it was given", File: "toolbox3d/squeeze.go",
+				Old: "func (a *AxisPinch) ApplyBounds(min, max model3d.Coord3D) (newMin, newMax model3d.Coord3D) {\n\treturn a.Apply(min), a.Apply(max)", New: "func (a *AxisPinch) ApplyBounds(min, max model3d.Coord3D) (newMin, newMax model3d.Coord3D) {\n\treturn min, max", Rule: "IDBOUNDS", Expect: "AxisPinch"},
+			{Name: "joined transform inverts its members in place", File: "model3d/transform.go",
+				Old: "\tres := JoinedTransform{}\n\tfor i := len(j) - 1; i >= 0; i-- {\n\t\tres = append(res, j[i].Inverse())\n\t}", New: "\tres := make(JoinedTransform, len(j))\n\tfor i, t := range j {\n\t\tres[i] = t.Inverse()\n\t}", Rule: "INVORDER", Expect: "JoinedTransform"},
+			{Name: "joined transform appends the inverses front to back", File: "model2d/transform.go",
+				Old: "\tfor i := len(j) - 1; i >= 0; i-- {\n\t\tres = append(res, j[i].Inverse())\n\t}", New: "\tfor i := 0; i < len(j); i++ {\n\t\tres = append(res, j[i].Inverse())\n\t}", Rule: "INVORDER", Expect: "JoinedTransform"},
 			{Name: "mirrored uniform scale returns swapped corners", File: "model3d/transform.go",
 				Old: "\tmin, max = min.Scale(s.Scale), max.Scale(s.Scale)\n\t// Handle negative scales.\n\treturn min.Min(max), max.Max(min)", New: "\treturn min.Scale(s.Scale), max.Scale(s.Scale)", Rule: "SIGNMAP", Expect: "ApplyBounds"},
 			{Name: "mirrored uniform scale maps distances to negative lengths", File: "model2d/transform.go",
